@@ -223,7 +223,7 @@ EXPORT void vec_znx_normalize_base2k_ref(const MODULE* module,                  
 
   // propagate carry until first limb of res
   int64_t i = a_size - 1;
-  for (; i >= res_size; --i) {
+  for (; i >= (int64_t)res_size; --i) {
     znx_normalize(nn, log2_base2k, 0x0, cout, a + i * a_sl, cin);
     cin = cout;
   }
@@ -235,7 +235,9 @@ EXPORT void vec_znx_normalize_base2k_ref(const MODULE* module,                  
   }
 
   // normalize last limb
-  znx_normalize(nn, log2_base2k, res, 0x0, a, cin);
+  if (res_size > 0 && a_size > 0) {
+    znx_normalize(nn, log2_base2k, res, 0x0, a, cin);
+  }
 
   // extend result with zeros
   for (uint64_t i = a_size; i < res_size; ++i) {
